@@ -1,11 +1,11 @@
-"""C15 -- scopes and name tables agree with Python's symbol table (VGC rules R15.1-R15.10)."""
+"""C15 -- scopes and name tables agree with Python's symbol table (VGC rules R15.1-R15.11)."""
 from __future__ import annotations
 
 import ast
 from typing import Dict, List, Optional, Set, Tuple
 
 from .. import vgc as vgc_mod
-from ..core import AnalysisError, call_name, calls_in, is_self_attr, walk_local
+from ..core import param_names, AnalysisError, call_name, calls_in, is_self_attr, walk_local
 from ..grammar import BINDS, G, PARAM_SLOTS, REDIRECTS, SCOPES, TARGET_FIELDS
 
 EXPLANATION = (
@@ -75,6 +75,7 @@ def check(ctx, res) -> None:
     from .c14 import line_table_rule
 
     line_table_rule(ctx, res, "R15.10")
+    region_interval_rule(ctx, res, "R15.11")
 
 
 def _check_main(ctx, res) -> None:
@@ -408,3 +409,36 @@ def scope_end_rule(ctx, res, rule: str) -> None:
                         "code in column 0 inside a function body truncates the function's scope, so names used after it are looked up in the wrong scope "
                         "and extract analyses only part of the host function", function=f.qualname)
     res.floor(rule, "indentation exits of the scope-end scan", n, 1)
+
+
+def region_interval_rule(ctx, res, rule: str) -> None:
+    """R15.11 (shared with C02): a scope's region is the half-open interval [start, end): its first character belongs
+    to it.  For most scopes that character is a keyword or a bracket, but a generator expression written without its own
+    parentheses begins with an identifier, which must be looked up in the generator's scope."""
+    idx = ctx.idx
+    f = idx.need_func("rope.base.pyscopes.Scope.in_region")
+    p = param_names(f.node)[1] if len(param_names(f.node)) > 1 else None
+    n = 0
+    for x in walk_local(f.node):
+        if not isinstance(x, ast.Compare):
+            continue
+        terms = [x.left, *x.comparators]
+        for i, op in enumerate(x.ops):
+            l, r = terms[i], terms[i + 1]
+            lower = None
+            if isinstance(r, ast.Name) and r.id == p and isinstance(op, (ast.Lt, ast.LtE)) and isinstance(l, ast.Subscript):
+                lower = isinstance(op, ast.LtE)
+            if isinstance(l, ast.Name) and l.id == p and isinstance(op, (ast.Gt, ast.GtE)) and isinstance(r, ast.Subscript) \
+                    and isinstance(r.slice, ast.Constant) and r.slice.value == 0:
+                lower = isinstance(op, ast.GtE)
+            if lower is None or not (isinstance(l if isinstance(r, ast.Name) else r, ast.Subscript)):
+                continue
+            sub = l if isinstance(r, ast.Name) else r
+            if not (isinstance(sub.slice, ast.Constant) and sub.slice.value == 0):
+                continue
+            n += 1
+            res.add(rule, "Scope.in_region|lower-bound-inclusive", lower, f"{f.unit.rel}:{x.lineno}",
+                    "the region's first offset belongs to the scope" if lower else
+                    "Scope.in_region excludes the first offset of the region: in `sum(x for x in xs)` the generator expression's region starts at the first "
+                    "`x`, which is therefore looked up in the enclosing scope and resolves to an outer variable of the same name", function=f.qualname)
+    res.floor(rule, "lower-bound comparisons in Scope.in_region", n, 1)
